@@ -612,6 +612,9 @@ fn job_workload(master: u64, job: u64, tier: Tier) -> Vec<u8> {
         let len = rng.range(660_000, 1_000_000) as usize;
         return workload::gen_incompressible(&mut rng, len);
     }
+    if job % 16 == 9 {
+        return workload::gen_png_edge_file(&mut rng);
+    }
     if job % 16 == 7 {
         // expanded form hundreds of times larger than the file and than any exact-fit window
         let len = rng.range(60_000, 900_000) as usize;
